@@ -69,7 +69,7 @@ type Rec struct {
 	AS   [2][]int
 	Any  interface{}
 	Tr   string // Transform trims it
-	Chk  int    // Validate: bit0 Tr must be trimmed, bit1 Up must be upper case, bit2 Lo must be lower case
+	Chk  int    // Validate: bit0 Tr must be trimmed, bit1 Up must be upper case, bit2 Lo must be lower case; Transform: bit3 derives Up, bit4 derives Lo
 	Bad  int    // Validate fails when != 0
 }
 
@@ -109,7 +109,21 @@ func (r *Rec) logHook(kind string) {
 
 func (r *Rec) Transform() {
 	r.logHook("T")
+	recHook(r)
+}
+
+// recHook is what Rec's Transform hook does (the model applies the same function): it trims Tr
+// and, on request (Chk bits 3 and 4), derives a mixed-case prefix into Up / Lo, fields that may
+// carry a case constraint: the schema's transform comes after the hook and has the last word.
+// Idempotent: the prefix is recognised in any case.
+func recHook(r *Rec) {
 	r.Tr = strings.TrimSpace(r.Tr)
+	if r.Chk&8 != 0 && !strings.HasPrefix(strings.ToLower(r.Up), "hk:") {
+		r.Up = "Hk:" + r.Up
+	}
+	if r.Chk&16 != 0 && !strings.HasPrefix(strings.ToLower(r.Lo), "hk:") {
+		r.Lo = "Hk:" + r.Lo
+	}
 }
 
 var errRecInvalid = errors.New("rec: invalid by harness rule")
